@@ -174,8 +174,9 @@ pub fn check(directed: bool, ls: &Lists, vals: &[(usize, i64)], spec: &SearchSpe
         _ => "c10",
     };
     // ---- C04 / C05 / C06 (path part): target other than the root
-    if is_search && spec.mode != "cycle" && (has(prop_of_kind) || has("c08") || has("c07f")) {
-        let name = if has(prop_of_kind) { prop_of_kind } else if has("c08") { "c08" } else { "c07f" };
+    let c07_filter = has("c07") && spec.method == "filter";
+    if is_search && spec.mode != "cycle" && (has(prop_of_kind) || has("c08") || c07_filter) {
+        let name = if has(prop_of_kind) { prop_of_kind } else if has("c08") { "c08" } else { "c07" };
         if let Some(t) = spec.target {
             if t != root {
                 let reachable = dist.contains_key(&t);
@@ -283,8 +284,8 @@ pub fn check(directed: bool, ls: &Lists, vals: &[(usize, i64)], spec: &SearchSpe
         }
     }
     // ---- C09: cycles
-    if (has("c09") || has("c08")) && is_search && spec.mode == "cycle" {
-        let name = if has("c09") { "c09" } else { "c08" };
+    if (has("c09") || has("c08") || c07_filter) && is_search && spec.mode == "cycle" {
+        let name = if has("c09") { "c09" } else if has("c08") { "c08" } else { "c07" };
         let cl = v.cycle_len(root);
         match (&out.path, cl) {
             (None, Some(n)) => fails.push((name.into(), format!("{} search_cycle from {root}: a closed walk of {n} accepted edge(s) exists but None was returned", spec.kind))),
